@@ -354,7 +354,13 @@ func init() {
 	opaqueStr := func(ex *Exec, fr *frame, fn *ssa.Function, args []Value) Value {
 		return ex.opaqueString("fmt")
 	}
-	reg([]string{"fmt.Sprintf", "fmt.Sprint", "fmt.Sprintln"}, opaqueStr)
+	reg([]string{"fmt.Sprint", "fmt.Sprintln"}, opaqueStr)
+	reg([]string{"fmt.Sprintf"}, func(ex *Exec, fr *frame, fn *ssa.Function, args []Value) Value {
+		if v, ok := ex.sprintf(args); ok {
+			return v
+		}
+		return ex.opaqueString("fmt")
+	})
 	reg([]string{"fmt.Errorf"}, func(ex *Exec, fr *frame, fn *ssa.Function, args []Value) Value {
 		return ex.makeError(ex.opaqueString("fmt.Errorf"))
 	})
@@ -524,6 +530,15 @@ func (ex *Exec) timeNow() Value {
 	if ex.lastNow != nil {
 		ex.addPC(c.Sle(ex.lastNow, t))
 	}
+	if ex.ev != nil {
+		// keep the witness model valid: the new reading equals the previous one (or the lower bound)
+		v := uint64(1_500_000_000_000_000_000)
+		if ex.lastNow != nil {
+			v = ex.ev.Eval(ex.lastNow)
+		}
+		ex.model.Vars[t.name] = v
+		ex.setModel(ex.model)
+	}
 	ex.lastNow = t
 	ex.inputs = append(ex.inputs, InputRec{Name: fmt.Sprintf("now%d", ex.nowCount), Kind: "time", Term: t})
 	return ex.timeFromUnixNano(t)
@@ -601,4 +616,135 @@ func (ex *Exec) indexSub(s, sub View, last bool) *T {
 		}
 	}
 	return res
+}
+
+// sprintf models fmt.Sprintf for formats made of literal text and the verbs
+// %d, %0Nd, %s, %v (strings and non-negative integers). Anything else is opaque.
+func (ex *Exec) sprintf(args []Value) (Value, bool) {
+	fv, ok := args[0].(View)
+	if !ok {
+		return nil, false
+	}
+	if _, isC := fv.Len.ConstS(); !isC {
+		return nil, false
+	}
+	format := ex.viewString(fv)
+	if strings.Contains(format, "?") {
+		return nil, false
+	}
+	rest, _ := args[1].(SliceV)
+	out := ex.emptyView()
+	ai := 0
+	lit := func(s string) {
+		if s != "" {
+			out = ex.concat(out, ex.constString(s))
+		}
+	}
+	i := 0
+	for i < len(format) {
+		j := strings.IndexByte(format[i:], '%')
+		if j < 0 {
+			lit(format[i:])
+			break
+		}
+		lit(format[i : i+j])
+		i += j + 1
+		if i >= len(format) {
+			return nil, false
+		}
+		if format[i] == '%' {
+			lit("%")
+			i++
+			continue
+		}
+		width := 0
+		zero := false
+		if format[i] == '0' {
+			zero = true
+			i++
+		}
+		for i < len(format) && format[i] >= '0' && format[i] <= '9' {
+			width = width*10 + int(format[i]-'0')
+			i++
+		}
+		if i >= len(format) || ai >= len(rest.A) {
+			return nil, false
+		}
+		verb := format[i]
+		i++
+		arg := rest.A[ai]
+		ai++
+		if iv, isI := arg.(Iface); isI {
+			arg = iv.V
+		}
+		switch a := arg.(type) {
+		case View:
+			if (verb != 's' && verb != 'v') || width != 0 {
+				return nil, false
+			}
+			out = ex.concat(out, a)
+		case *T:
+			if (verb != 'd' && verb != 'v') || a.s.K != KBV {
+				return nil, false
+			}
+			v64 := a
+			if a.s.W < 64 {
+				v64 = ex.c.SExt(a, 64) // signedness unknown here: callers pass non-negative values
+			}
+			if k, isC := v64.ConstS(); isC {
+				if zero && width > 0 {
+					lit(fmt.Sprintf("%0*d", width, k))
+				} else {
+					lit(fmt.Sprintf("%*d", width, k))
+				}
+				continue
+			}
+			if !zero || width == 0 || width > 19 {
+				return nil, false
+			}
+			// symbolic value, fixed width with zero padding: digits by division; the
+			// value is required to be non-negative and to fit the width
+			c := ex.c
+			pow := uint64(1)
+			for d := 0; d < width && d < 19; d++ {
+				pow *= 10
+			}
+			ex.oblige(c.Sle(ex.intConst(0), v64), "sprintf-model", "engine model of Sprintf: value must be non-negative")
+			if width < 19 {
+				ex.oblige(c.Slt(v64, c.Const(64, pow)), "sprintf-model", "engine model of Sprintf: value must fit the zero-padded width")
+			}
+			// relational encoding: fresh digit variables d_i in 0..9 with sum d_i*10^i = value
+			// (the digits are uniquely determined, so this is a definitional extension)
+			cells := make([]*T, width)
+			p := uint64(1)
+			sum := c.Const(64, 0)
+			ex.nextOpaque++
+			for d := width - 1; d >= 0; d-- {
+				dv := c.Var(fmt.Sprintf("dig%d_%d", ex.nextOpaque, d), BV(64))
+				ex.addPC(c.And(c.Sle(ex.intConst(0), dv), c.Sle(dv, ex.intConst(9))))
+				sum = c.Add(sum, c.Mul(dv, c.Const(64, p)))
+				cells[d] = c.Add(c.Extract(dv, 7, 0), c.Const(8, '0'))
+				p *= 10
+			}
+			ex.addPC(c.Eq(sum, v64))
+			if ex.ev != nil {
+				// extend the witness model with the digits of the value it assigns
+				val := ex.ev.Eval(v64)
+				for d := width - 1; d >= 0; d-- {
+					ex.model.Vars[fmt.Sprintf("dig%d_%d", ex.nextOpaque, d)] = val % 10
+					val /= 10
+				}
+				ex.setModel(ex.model)
+			}
+			o := ex.newByteObj(ex.intConst(int64(width)), int64(width), &layer{kind: lCells, cells: cells}, "sprintf")
+			n := ex.intConst(int64(width))
+			out = ex.concat(out, View{O: o, Off: ex.intConst(0), Len: n, Cap: n})
+		default:
+			return nil, false
+		}
+	}
+	if ai != len(rest.A) {
+		return nil, false
+	}
+	return out, true
 }
